@@ -7,6 +7,7 @@ mod refcodec;
 mod props;
 mod report;
 mod rules;
+mod stim;
 mod util;
 
 use report::Report;
@@ -46,6 +47,7 @@ fn main() {
             }
             let mut rep = Report::new(&id, &tier, level_of(&id));
             let r = util::guarded(|| match id.as_str() {
+                "C05" => props::c05::run(&mut rep),
                 "C06" => props::c06::run(&mut rep),
                 "C07" => props::eps::c07(&mut rep),
                 "C08" => props::eps::c08(&mut rep),
@@ -68,6 +70,7 @@ fn main() {
             std::process::exit(rep.finish());
         }
         "replay" => {
+            util::set_quiet(false);
             let s = std::fs::read_to_string(&args[2]).expect("cannot read replay file");
             let v: serde_json::Value = serde_json::from_str(&s).expect("replay file is not JSON");
             let prop = v["property"].as_str().unwrap_or("").to_string();
@@ -78,6 +81,7 @@ fn main() {
                 .unwrap_or_default();
             println!("replaying {} ({}), {} steps; expected: {}", prop, config, labels.len(), v["detail"]);
             let out = match prop.as_str() {
+                "C05" => props::c05::replay(&config, &labels),
                 "C06" => props::c06::replay(&config, &labels),
                 "C07" | "C08" | "C12" | "C13" | "C14" | "C15" | "C19" => props::eps::replay(&config, &labels),
                 "C09" => props::c09::replay(&v),
